@@ -160,24 +160,23 @@ Qed.
 (* ---- get_libraries ---- *)
 Theorem query_libraries_spec fuel it rec inside pats res :
   LookOK s (q_reg o) (q_key o) RLibs -> ~ In [] pats ->
-  ~ (rec = true /\ inside = false /\ exists x, item_owner s it x /\ kind_of s x = Some KInstance) ->
   query_libraries s o fuel [it] rec inside pats = WOk res ->
   forall e, In e res <->
     (reachA_libraries s it e \/ reachB_libraries s rec inside it e) /\ matching pats e.
 Proof.
-  intros HL Hp Hx H e. unfold query_libraries in H. destruct (two_stage_ok _ _ _ _ _ _ _ _ H) as (ps & os & E). rewrite E in H.
+  intros HL Hp H e. unfold query_libraries in H. destruct (two_stage_ok _ _ _ _ _ _ _ _ H) as (ps & os & E). rewrite E in H.
   rewrite (two_stage_spec s o false BFound RLibs HL ps os pats res Hp H e).
-  destruct (cands_libraries_spec s W rec inside fuel it ps os E Hx) as (HA & HB & _). unfold candidate. rewrite HA, HB, keyok_false. tauto.
+  destruct (cands_libraries_spec s W rec inside fuel it ps os E) as (HA & HB & _). unfold candidate. rewrite HA, HB, keyok_false. tauto.
 Qed.
 
-(* from an instance with selection OUTSIDE, recursive is ignored: only the library of the
-   definition the instance sits in is a candidate *)
+(* from an instance with selection OUTSIDE (the case in which recursive used to be ignored): the
+   library of the definition the instance sits in and, recursive, of every definition above it *)
 Theorem query_libraries_instance_outside fuel it x rec pats res :
   LookOK s (q_reg o) (q_key o) RLibs -> ~ In [] pats ->
   item_owner s it x -> kind_of s x = Some KInstance ->
   query_libraries s o fuel [it] rec false pats = WOk res ->
   forall e, In e res <->
-    (exists p, par s RChildren x = Some p /\ par s RDefs p = Some e) /\ matching pats e.
+    (exists p d', par s RChildren x = Some p /\ star (used_by s) rec p d' /\ par s RDefs d' = Some e) /\ matching pats e.
 Proof.
   intros HL Hp Hx Hk H e. unfold query_libraries in H. destruct (two_stage_ok _ _ _ _ _ _ _ _ H) as (ps & os & E). rewrite E in H.
   rewrite (two_stage_spec s o false BFound RLibs HL ps os pats res Hp H e).
@@ -423,3 +422,27 @@ Proof.
   apply (two_stage_NoDup s o false BNames RCables ps os pats res). exact H.
 Qed.
 End Clauses.
+
+(* ---- the hierarchical queries get_hinstances / get_hports / get_hpins / get_hcables / get_hwires:
+        the filter law over whatever references the function finds for its roots (the candidate
+        enumeration of these five is the hier engine's, Hier/*.v). [refs] = the unfiltered result
+        (duplicate-free), [hname] = the hierarchical name the patterns are matched against; nothing is
+        yielded before the patterns are looked at (in_yield = []): since the repair of finding C13-K6
+        this holds for every kind of root and every selection, not only for netlist / instance-reference
+        roots. Result for a pattern = unfiltered result restricted to the matches; no duplicates. ---- *)
+Theorem hier_filters_unfiltered ic ir hname refs pats : NoDup refs ->
+  NoDup (run_hier ic ir hname refs [] pats) /\
+  forall e, In e (run_hier ic ir hname refs [] pats) <->
+            In e (run_hier true false hname refs [] star_pat) /\ existsb (fun p => matches_b ic ir p (hname e)) pats = true.
+Proof.
+  intros Hn. destruct (run_hier_spec ic ir hname refs [] pats Hn) as [Hd Hs]. split; [exact Hd|].
+  destruct (run_hier_spec true false hname refs [] star_pat Hn) as [_ Hu].
+  intro e. rewrite Hs, Hu. unfold star_pat. cbn [existsb]. rewrite star_matches. cbn. tauto.
+Qed.
+
+Theorem hier_unfiltered hname refs : NoDup refs ->
+  forall e, In e (run_hier true false hname refs [] star_pat) <-> In e refs.
+Proof.
+  intros Hn e. destruct (run_hier_spec true false hname refs [] star_pat Hn) as [_ Hu]. rewrite Hu.
+  unfold star_pat. cbn [existsb]. rewrite star_matches. cbn. tauto.
+Qed.
